@@ -46,6 +46,12 @@ func VerifySolution(req *protocol.ProofOfWork, p Parameters) (*Decoded, error) {
 		return nil, twirp.InvalidArgumentError("solution", err.Error())
 	}
 
+	if hc.String() != req.GetSolution() {
+		// the zero bits are counted on the canonical spelling: a differently spelled stamp
+		// (leading zeros, plus signs, trailing colon) would be judged on text it does not hash to
+		return nil, twirp.InvalidArgumentError("solution", "solution is not in canonical form")
+	}
+
 	if hc.Difficulty != p.Difficulty {
 		return nil, twirp.InvalidArgumentError("solution", "solution the wrong difficulty")
 	}
